@@ -59,7 +59,7 @@ func init() {
 		Run:            c03Run,
 		Replay:         c03Replay,
 		QuickBudget:    240 * time.Second,
-		ThoroughBudget: 9 * time.Minute,
+		ThoroughBudget: 25 * time.Minute,
 	})
 }
 
